@@ -330,7 +330,104 @@ func deliver(nd *labnet.Node, b *types.Block) (bool, error) {
 
 // runCase: h = [mode, pos, mutant]; mode 0: mutant extends the best chain; mode 1: mutant on a side branch
 // (valid chain already at pos+0, side branch = mutant + 2 children, longer than the main chain at that time).
+// pairVariants: an invalid block that is only invalid TOGETHER with its parent (both attached by one reorganisation).
+var pairVariants = []string{"child-respends-output-spent-by-parent", "child-respends-output-created-and-spent-in-parent", "child-spends-output-of-other-branch"}
+
+// runPair: mode 2 = the pair sits on a side branch that outgrows the main chain (fork switch);
+// mode 3 = the child is delivered first (orphan), then the parent extends the best chain (both connect in one call).
+func runPair(h []int) (out xplore.Out) {
+	mode, pos, vi := h[0], h[1], h[2]
+	name := pairVariants[vi]
+	viol := func(key, what string) {
+		out.Viols = append(out.Viols, xplore.Viol{Key: key, What: fmt.Sprintf("pair %s at position %d (height %d), mode %d: %s", name, pos, valid[pos].Height, mode, what)})
+	}
+	var s1txs, s2txs []*types.Tx
+	switch vi {
+	case 0:
+		s1txs = []*types.Tx{labnet.Pay([]labnet.Out{P.U[4]}, labnet.Prog(0x71))}
+		s2txs = []*types.Tx{labnet.Pay([]labnet.Out{P.U[4]}, labnet.Prog(0x72))}
+	case 1:
+		t1 := labnet.Pay([]labnet.Out{P.U[4]}, labnet.Prog(0x73))
+		t2 := labnet.Pay([]labnet.Out{{Tx: t1, Idx: 0}}, labnet.Prog(0x74))
+		s1txs = []*types.Tx{t1, t2}
+		s2txs = []*types.Tx{labnet.Pay([]labnet.Out{{Tx: t1, Idx: 0}}, labnet.Prog(0x75))}
+	case 2:
+		// the output of the valid chain's own transaction at this position does not exist on the side branch
+		vo := validOpt(pos)
+		if len(vo.Txs) == 0 || mode == 3 {
+			out.Digest, out.Outcome = "n/a", "not-applicable"
+			return
+		}
+		s1txs = nil
+		s2txs = []*types.Tx{labnet.Pay([]labnet.Out{{Tx: vo.Txs[0], Idx: len(vo.Txs[0].Outputs) - 1}}, labnet.Prog(0x76))}
+	}
+	s1 := net.NewBlock(valid[pos-1], labnet.BlockOpt{Tag: 11, Txs: s1txs})
+	s2 := net.NewBlock(s1, labnet.BlockOpt{Tag: 11, Txs: s2txs})
+	s3 := net.NewBlock(s2, labnet.BlockOpt{Tag: 11})
+	bad := map[bc.Hash]string{s2.Hash(): "child", s3.Hash(): "grandchild"}
+	w := chainlab.NewWorld(net, P.Tip, P.Base)
+	in, err := w.NewInst()
+	if err != nil {
+		return xplore.Out{Viols: []xplore.Viol{{Key: "infra-newnode", What: err.Error()}}}
+	}
+	nd := in.Node
+	check := func(when string) {
+		out.Checks++
+		best := nd.Chain.BestBlockHeader()
+		if n, isBad := bad[best.Hash()]; isBad {
+			viol("invalid-block-became-best:pair-"+name, fmt.Sprintf("%s: best block is the %s", when, n))
+		}
+		for hsh, n := range bad {
+			if nd.Chain.InMainChain(hsh) {
+				viol("invalid-block-in-main-chain:pair-"+name, fmt.Sprintf("%s: %s reported in main chain", when, n))
+			}
+		}
+	}
+	validUpTo := pos - 1
+	if mode == 2 {
+		validUpTo = pos
+	}
+	for i := 1; i <= validUpTo; i++ {
+		if orphan, err := deliver(nd, valid[i].Block); err != nil || orphan {
+			viol("valid-block-refused", fmt.Sprintf("l%d: orphan=%v err=%v", i, orphan, err))
+			return
+		}
+	}
+	if mode == 2 {
+		deliver(nd, s1.Block)
+		check("after parent")
+		deliver(nd, s2.Block)
+		check("after child")
+		deliver(nd, s3.Block)
+		check("after grandchild")
+	} else {
+		deliver(nd, s3.Block)
+		deliver(nd, s2.Block)
+		check("after orphans")
+		deliver(nd, s1.Block)
+		check("after parent connected the orphans")
+	}
+	for i := validUpTo + 1; i <= last; i++ {
+		deliver(nd, valid[i].Block)
+		check(fmt.Sprintf("after l%d", i))
+	}
+	// the ledger must be that of the best chain replayed alone
+	best := nd.Chain.BestBlockHeader()
+	out.Checks++
+	if best.Hash() != valid[last].Hash() {
+		viol("best-chain-differs-from-run-without-mutant:pair", fmt.Sprintf("best height %d, expected the valid tip at height %d", best.Height, valid[last].Height))
+	}
+	out.Steps = 9
+	out.Digest = fmt.Sprintf("%v", h)
+	out.Outcome = "pair-" + name
+	in.DB.Wipe()
+	return
+}
+
 func runCase(h []int, _ json.RawMessage) (out xplore.Out) {
+	if h[0] >= 2 {
+		return runPair(h)
+	}
 	mode, pos, mi := h[0], h[1], h[2]
 	m := muts[mi]
 	viol := func(key, what string) {
@@ -460,7 +557,17 @@ func main() {
 			}
 		}
 	}
+	for mode := 2; mode <= 3; mode++ {
+		for _, pos := range positions {
+			for vi := range pairVariants {
+				items = append(items, []int{mode, pos, vi})
+			}
+		}
+	}
 	spec.Describe = func(h []int) interface{} {
+		if h[0] >= 2 {
+			return map[string]interface{}{"mode": []string{"", "", "pair on a side branch that outgrows the main chain (fork switch)", "child delivered before its parent (both connect in one call)"}[h[0]], "position": h[1], "pair": pairVariants[h[2]]}
+		}
 		return map[string]interface{}{"mode": []string{"mutant extends best chain", "mutant on side branch that outgrows the main chain"}[h[0]], "position": h[1], "mutant": muts[h[2]].name}
 	}
 	st := xplore.Flat(run, spec, items)
